@@ -125,7 +125,8 @@ fn coords_exh(i: usize) -> (f64, f64) {
 }
 fn coords_rand(key: u64, j: u64, i: usize) -> (f64, f64) {
     let kc = mix(key.wrapping_add(2) & MASK);
-    let mode = draw(kc, j, 1048576) % 3;
+    // the enumerated part of the segment-list stream uses small integers (readable replays)
+    let mode = if (SEG_OFFSET..SEG_OFFSET + N_PAIRS + N_TRIPLES).contains(&j) { 0 } else { draw(kc, j, 1048576) % 3 };
     let i = i as u64;
     (
         gen_float(force_cat(mode, draw(kc, j, 4 * i)), draw(kc, j, 4 * i + 1)),
@@ -458,6 +459,148 @@ fn gen_digits(key: u64, j: u64) -> Vec<u8> {
     ds.iter().map(|d| *d as u8).collect()
 }
 
+// ---------- the segment-list stream (same function as Run/C20.v seg_digits) ----------
+const D_MOVE: u8 = 0;
+const D_LINE: u8 = 2;
+const D_OFF: u8 = 4;
+const D_CURVE: u8 = 6;
+const D_QCURVE: u8 = 8;
+const SEG_SUMS: [u64; 5] = [15, 16, 31, 47, 63];
+const N_PAIRS: u64 = 213;
+const N_TRIPLES: u64 = 354;
+const SPECIAL_RUNS: [u64; 11] = [14, 15, 16, 17, 30, 31, 32, 33, 63, 64, 65];
+const SEG_OFFSET: u64 = 1073741824;
+
+fn seg_triple(t: u64) -> (u64, u64) {
+    let mut t = t;
+    for s in SEG_SUMS {
+        if t <= s {
+            return (t, s - t);
+        }
+        t -= s + 1;
+    }
+    (0, 0)
+}
+fn rotl(v: Vec<u8>, k: usize) -> Vec<u8> {
+    let mut r = v[k..].to_vec();
+    r.extend_from_slice(&v[..k]);
+    r
+}
+fn seg_digits(key: u64, j: u64) -> Vec<u8> {
+    let ks = mix(key.wrapping_add(4) & MASK);
+    let rotd = |l: Vec<u8>| -> Vec<u8> {
+        let k = (draw(ks, j, 4) % l.len() as u64) as usize;
+        rotl(l, k)
+    };
+    let offs = |k: u64| -> Vec<u8> { vec![D_OFF; k as usize] };
+    if j < N_PAIRS {
+        let (k, v) = (j / 3, j % 3);
+        let mut body = offs(k);
+        body.extend_from_slice(&[D_QCURVE, D_OFF, D_OFF, D_CURVE]);
+        let first = if v == 2 { D_MOVE } else { D_LINE };
+        let mut l = vec![first];
+        l.extend(body);
+        return if v == 1 { rotd(l) } else { l };
+    }
+    if j < N_PAIRS + N_TRIPLES {
+        let t = j - N_PAIRS;
+        let (k1, k2) = seg_triple(t / 2);
+        let mut l = vec![if t % 2 == 0 { D_LINE } else { D_MOVE }];
+        l.extend(offs(k1));
+        l.push(D_QCURVE);
+        l.extend(offs(k2));
+        l.extend_from_slice(&[D_QCURVE, D_OFF, D_OFF, D_CURVE]);
+        return if t % 2 == 0 { rotd(l) } else { l };
+    }
+    if draw(ks, j, 2) % 12 == 0 {
+        return offs(1 + draw(ks, j, 3) % 40);
+    }
+    let nseg = 1 + draw(ks, j, 0) % 12;
+    let mut w: Vec<u8> = vec![];
+    for i in 0..nseg {
+        let d = draw(ks, j, 10 + i);
+        let r = d % 100;
+        let e = d >> 8;
+        let sm = if (e >> 20) % 3 == 0 { 1u8 } else { 0 };
+        let sg: Vec<u8> = if r < 20 {
+            vec![D_LINE + sm]
+        } else if r < 30 {
+            vec![D_CURVE + sm]
+        } else if r < 45 {
+            vec![D_OFF, D_CURVE + sm]
+        } else if r < 70 {
+            vec![D_OFF, D_OFF, D_CURVE + sm]
+        } else {
+            let r2 = e % 10;
+            let k = if r2 < 5 {
+                (e >> 4) % 41
+            } else if r2 < 8 {
+                SPECIAL_RUNS[((e >> 4) % 11) as usize]
+            } else {
+                (e >> 4) % 4
+            };
+            let mut v = offs(k);
+            v.push(D_QCURVE + sm);
+            v
+        };
+        if w.len() + sg.len() > 150 {
+            break;
+        }
+        w.extend(sg);
+    }
+    if w.is_empty() {
+        return vec![D_LINE];
+    }
+    if draw(ks, j, 1) % 3 == 0 {
+        let mut l = vec![D_MOVE];
+        l.extend(w);
+        l
+    } else {
+        rotd(w)
+    }
+}
+fn seg_case(key: u64, j: u64) -> (Vec<u8>, CaseRes) {
+    let digits = seg_digits(key, j);
+    let pts = points_rand(key, j + SEG_OFFSET, &digits);
+    let r = run_contour(&pts, draw(key, 9001, j));
+    (digits, r)
+}
+/// statistics of one contour in walk order (from the point after the last on-curve point of a
+/// closed contour): lengths of the off-curve runs ended by a qcurve, and for every cubic with
+/// two off-curves the number of off-curves consumed by qcurves since the previous curve point
+fn seg_stats(digits: &[u8], runs: &mut [u64; 72], cum: &mut [u64; 72]) {
+    let n = digits.len();
+    let t = |i: usize| digits[i] / 2;
+    if n == 0 || (0..n).all(|i| t(i) == 2) {
+        return;
+    }
+    let start = if t(0) == 0 { 0 } else { (0..n).rev().find(|i| t(*i) != 2).unwrap() };
+    let mut run = 0usize;
+    let mut consumed = 0usize;
+    for s in 1..=n {
+        let i = (start + s) % n;
+        if t(0) == 0 && start + s >= n {
+            break;
+        }
+        match t(i) {
+            2 => run += 1,
+            4 => {
+                runs[run.min(71)] += 1;
+                consumed += run;
+                run = 0;
+            }
+            3 => {
+                if run == 2 {
+                    cum[consumed.min(71)] += 1;
+                }
+                consumed = 0;
+                run = 0;
+            }
+            _ => run = 0,
+        }
+    }
+}
+
 // ---------- transforms ----------
 fn tr_case(key: u64, i: u64) -> (AffineTransform, (f64, f64)) {
     let kt = mix(key.wrapping_add(1) & MASK);
@@ -652,6 +795,54 @@ pub fn main(a: &Args) {
     write_file(&a.out.join("rand_spec.txt"), &rspec.out);
     write_file(&a.out.join("rand_samples.txt"), &samples);
 
+    // ----- contours built from segment lists -----
+    let nseg: u64 = if a.thorough() { 60_000 } else { 6_000 };
+    let mut smodel = Sums::new(BS_RAND);
+    let mut sspec = Sums::new(BS_RAND);
+    let mut seg_accepted = 0u64;
+    let mut seg_points = 0u64;
+    let mut seg_open = 0u64;
+    let mut seg_start_off = 0u64;
+    let mut runs = [0u64; 72];
+    let mut cum = [0u64; 72];
+    for j in 0..nseg {
+        let (digits, r) = seg_case(key, j);
+        smodel.push(r.model);
+        sspec.push(r.spec);
+        if r.accepted {
+            seg_accepted += 1;
+        }
+        seg_points += digits.len() as u64;
+        if digits[0] / 2 == 0 {
+            seg_open += 1;
+        } else if digits[0] / 2 == 2 {
+            seg_start_off += 1;
+        }
+        seg_stats(&digits, &mut runs, &mut cum);
+        if let Some(v) = r.violation {
+            let ds: String = digits.iter().map(|d| (b'0' + d) as char).collect();
+            push_violation(
+                format!(
+                    "{{\"kind\":\"contour\",\"coords\":\"seg\",\"key\":{},\"index\":{},\"digits\":\"{}\",\"what\":{}}}",
+                    key, j, ds, json_str(&v)
+                ),
+                &mut n_viol,
+            );
+        }
+    }
+    smodel.flush();
+    sspec.flush();
+    write_file(&a.out.join("seg_model.txt"), &smodel.out);
+    write_file(&a.out.join("seg_spec.txt"), &sspec.out);
+    let hist = |h: &[u64; 72]| -> String {
+        format!("{{{}}}", h.iter().enumerate().filter(|(_, c)| **c > 0).map(|(k, c)| format!("\"{}{}\":{}", k, if k == 71 { "+" } else { "" }, c)).collect::<Vec<_>>().join(","))
+    };
+    let seg_summary = format!(
+        "{{\"contours\":{},\"accepted\":{},\"mean_len\":{:.1},\"open\":{},\"closed_starting_with_offcurve\":{},\"qcurve_run_length_histogram\":{},\"cubic2_by_offcurves_consumed_by_qcurves_since_previous_curve\":{}}}",
+        nseg, seg_accepted, seg_points as f64 / nseg as f64, seg_open, seg_start_off, hist(&runs), hist(&cum)
+    );
+    write_file(&a.out.join("seg_summary.json"), &seg_summary);
+
     // ----- transforms -----
     let ntr: u64 = if a.thorough() { 10_000_000 } else { 1_000_000 };
     let mut tr = Sums::new(BS_TR);
@@ -703,8 +894,8 @@ pub fn main(a: &Args) {
 }
 
 /// replay file: one line,
-///   `contour exh <digits5>` | `contour rand <key> <index>` | `transform <key> <index>`   readable results
-///   `block exh <key> <n> <base> <count>` | `block rand <key> <base> <count>` | `block tr <key> <base> <count>`
+///   `contour exh <digits5>` | `contour rand|seg <key> <index>` | `transform <key> <index>`   readable results
+///   `block exh <key> <n> <base> <count>` | `block rand|seg <key> <base> <count>` | `block tr <key> <base> <count>`
 ///       per-case fingerprints "model spec" (tr: "transform kurbo"), one case per line
 fn replay(p: &std::path::Path) {
     let s = std::fs::read_to_string(p).expect("replay file");
@@ -723,6 +914,12 @@ fn replay(p: &std::path::Path) {
                 println!("{} {}", r.model, r.spec);
             }
         }
+        (Some("block"), Some("seg")) => {
+            for j in num(3)..num(3) + num(4) {
+                let (_, r) = seg_case(num(2), j);
+                println!("{} {}", r.model, r.spec);
+            }
+        }
         (Some("block"), Some("tr")) => {
             for i in num(3)..num(3) + num(4) {
                 let (t, p) = tr_case(num(2), i);
@@ -734,6 +931,10 @@ fn replay(p: &std::path::Path) {
             let pts = if kind == "exh" {
                 let types: Vec<u8> = w.get(2).unwrap_or(&"").bytes().map(|b| b - b'0').collect();
                 points_exh(&types, 0)
+            } else if kind == "seg" {
+                let digits = seg_digits(num(2), num(3));
+                println!("digits: {}", digits.iter().map(|d| (b'0' + d) as char).collect::<String>());
+                points_rand(num(2), num(3) + SEG_OFFSET, &digits)
             } else {
                 let digits = gen_digits(num(2), num(3));
                 println!("digits: {}", digits.iter().map(|d| (b'0' + d) as char).collect::<String>());
